@@ -49,6 +49,9 @@ def build_requests(rng, n_problems):
             reqs.append({**base, "language": "llvm" if base["language"] == "c" else "c"})
         if k % 5 == 0:
             reqs.append({**base, "kinds": [base["kinds"][0]]})
+        if k % 4 == 1:
+            # a kind mentioned twice: whatever the library returns for the list as given, the CLI must print the same
+            reqs.append({**base, "kinds": base["kinds"] + [base["kinds"][0]], "language": "c"})
     return reqs
 
 
@@ -186,6 +189,7 @@ def main(tier):
             for m in r["cli"]["mismatch"]:
                 run.violation(f"cli-differs-from-library:{m['how']}", m)
             run.count("cache_comparisons", r["cache"]["checked"])
+            run.count("swapped_format_requests_after_the_original", r["cache"].get("swapped_format_requests", 0))
             for m in r["cache"]["mismatch"]:
                 run.violation("cached-result-differs-from-fresh-compile", m)
         # fresh-process comparison of evaluate results
